@@ -12,6 +12,9 @@ public class JDrive {
   static String bits(double x) { long b = Double.doubleToRawLongBits(x); return "[" + (int) (b >> 32) + "," + (int) b + "]"; }
   static String esc(String s) { StringBuilder o = new StringBuilder(); for (char c : s.toCharArray()) { if (c == '"' || c == '\\') { o.append('\\').append(c); } else if (c < 0x20 || c >= 0x7f) o.append(String.format("\\u%04x", (int) c)); else o.append(c); } return o.toString(); }
   static String dl(String d) { return d.isEmpty() ? "[]" : "[[" + d.replace(";", "],[") + "]]"; }
+  /** "ok,hi,lo/ok,hi,lo" -> [[ok,0,[[hi,lo]]],...]: the C outcomes at the two neighbouring arguments, in the shape of the "c" field */
+  static String alts(String a) { if (a.isEmpty()) return "[]"; StringBuilder sb = new StringBuilder("["); for (String p : a.split("/")) { String[] q = p.split(","); if (sb.length() > 1) sb.append(",");
+      sb.append("[").append(q[0]).append(",0,").append(q[0].equals("1") ? "[[" + q[1] + "," + q[2] + "]]" : "[]").append("]"); } return sb.append("]").toString(); }
   static Map<String, Method> cache = new HashMap<>();
   static Method find(String fn, Class<?>[] types) { String key = fn + Arrays.toString(types); if (cache.containsKey(key)) return cache.get(key); Method m = null; try { m = Xraylib.class.getMethod(fn, types); } catch (Exception e) { } cache.put(key, m); return m; }
   static long hashObj(Object o) throws Exception {   // field-wise digest of result objects, same recipe as the C side (c19.c)
@@ -88,6 +91,11 @@ public class JDrive {
     if (fn.equals("Crystal_F_H_StructureFactor_Partial")) return Xraylib.Crystal_F_H_StructureFactor_Partial(cs, d[0], i, j, k, d[1], d[2], i1 / 100 - 1, (i1 / 10) % 10 - 1, i1 % 10 - 1);
     throw new NoSuchMethodException(fn);
   }
+  /** overwrite every int[] / double[] of an object the library handed out: if it was not an independent copy, later lookups show it */
+  static void scribble(Object o) throws Exception {
+    if (o == null || o instanceof String || o instanceof Double || o instanceof Integer || o instanceof Complex || o.getClass().isArray()) return;
+    for (Field f : o.getClass().getFields()) { Object v = f.get(o); if (v instanceof int[]) Arrays.fill((int[]) v, -7); else if (v instanceof double[]) Arrays.fill((double[]) v, -7.0); }
+  }
   public static void main(String[] argv) throws Exception {
     BufferedReader in = new BufferedReader(new InputStreamReader(new FileInputStream(argv[0]), "ISO-8859-1"));
     PrintStream out = new PrintStream(new BufferedOutputStream(new FileOutputStream(argv[1]), 1 << 16), false, "ISO-8859-1");
@@ -105,7 +113,7 @@ public class JDrive {
       // fn | sig | i0 | i1 | d0 | d1 | d2 | s | c_ok | c_hash | c_doubles(;-separated bit pairs)
       String fn = t[0], sig = t[1]; int i0 = Integer.parseInt(t[2]), i1 = Integer.parseInt(t[3]);
       double[] d = new double[3]; for (int k = 0; k < 3; k++) d[k] = Double.longBitsToDouble(Long.parseLong(t[4 + k]));
-      String s = t[7]; int cok = Integer.parseInt(t[8]); long chash = Long.parseLong(t[9]); String cd = t[10]; String extra = t.length > 11 ? t[11] : "";
+      String s = t[7]; int cok = Integer.parseInt(t[8]); long chash = Long.parseLong(t[9]); String cd = t[10]; String extra = t.length > 11 ? t[11] : ""; String alt = t.length > 12 ? t[12] : "";
       if (fn.equals("CrystalDef")) { define(s, cd, extra); continue; }
       List<Class<?>> types = new ArrayList<>(); List<Object> args = new ArrayList<>(); int ii = 0, di = 0;
       for (char ch : sig.toCharArray()) { if (ch == 'I') { types.add(int.class); args.add(ii++ == 0 ? i0 : i1); } else if (ch == 'D') { types.add(double.class); args.add(d[di++]); } else { types.add(String.class); args.add(s); } }
@@ -115,11 +123,11 @@ public class JDrive {
       n++;
       int jok; long jhash = 0; String jd = ""; String exc = "";
       try { Object r; try { r = sig.equals("XP") ? pspecial(fn, i0, i1, d[0]) : m == null ? special(fn, i0, i1, d, s) : m.invoke(null, args.toArray()); } catch (InvocationTargetException e) { throw e; } catch (NoSuchMethodException e) { missing.add(fn + "(X)"); n--; continue; } catch (RuntimeException e) { throw new InvocationTargetException(e); }
-        jok = 1; jhash = (r instanceof Double || r instanceof Complex) ? 0 : hashObj(r); double[] v = doubles(r); StringBuilder sb = new StringBuilder(); for (int k = 0; k < v.length; k++) { if (k > 0) sb.append(";"); long b = Double.doubleToRawLongBits(v[k]); sb.append((int) (b >> 32)).append(",").append((int) b); } jd = sb.toString(); }
+        jok = 1; jhash = (r instanceof Double || r instanceof Complex) ? 0 : hashObj(r); double[] v = doubles(r); StringBuilder sb = new StringBuilder(); for (int k = 0; k < v.length; k++) { if (k > 0) sb.append(";"); long b = Double.doubleToRawLongBits(v[k]); sb.append((int) (b >> 32)).append(",").append((int) b); } jd = sb.toString(); scribble(r); }
       catch (InvocationTargetException e) { jok = 0; exc = e.getCause().getClass().getSimpleName(); }
       if (jok == cok && (cok == 0 || (jhash == chash && jd.equals(cd)))) { same++; continue; }
       { if (diffs.length() > 0) diffs.append(",");
-        diffs.append("{\"a\":[" + i0 + "," + i1 + "],\"d\":[" + bits(d[0]) + "," + bits(d[1]) + "," + bits(d[2]) + "],\"s\":\"" + esc(s) + "\",\"c\":[" + cok + "," + chash + "," + dl(cd) + "],\"j\":[" + jok + "," + jhash + "," + dl(jd) + "],\"sc\":" + (extra.isEmpty() ? "[0,0]" : "[" + extra + "]") + ",\"exc\":\"" + exc + "\"}"); }
+        diffs.append("{\"a\":[" + i0 + "," + i1 + "],\"d\":[" + bits(d[0]) + "," + bits(d[1]) + "," + bits(d[2]) + "],\"s\":\"" + esc(s) + "\",\"c\":[" + cok + "," + chash + "," + dl(cd) + "],\"j\":[" + jok + "," + jhash + "," + dl(jd) + "],\"sc\":" + (extra.isEmpty() ? "[0,0]" : "[" + extra + "]") + ",\"alt\":" + alts(alt) + ",\"exc\":\"" + exc + "\"}"); }
     }
     for (String m : missing) out.println("{\"k\":\"jmissing\",\"fn\":\"" + m + "\"}");
     Set<String> all = new TreeSet<>(); for (Method m : Xraylib.class.getDeclaredMethods()) if (Modifier.isPublic(m.getModifiers()) && Modifier.isStatic(m.getModifiers())) all.add(m.getName());
